@@ -3,3 +3,10 @@ import ParsleyVerif.Props.C07P
 #print axioms PV.Slice.c07_translated_setReaderPos_op
 #print axioms PV.Slice.c07_translated_setReaderPos_frame
 #print axioms PV.Slice.c07_translated_list
+#print axioms PV.Slice.c07_translated_appendNode
+#print axioms PV.Slice.c07_translated_nodeListAppend
+#print axioms PV.Slice.c07_translated_append
+#print axioms PV.Slice.c07_translated_append_frame
+#print axioms PV.Slice.c07p_clipped_append_fresh
+#print axioms PV.Slice.c07p_clipped_appendNode_fresh
+#print axioms PV.Slice.c07p_unclipped_append_corrupts
